@@ -20,15 +20,24 @@ pub(super) struct MulAddFusion<F> {
     use_counts: HashMap<WitnessId, usize>,
     defs: HashMap<WitnessId, IndexedDef<F>>,
     backwards_computed: HashMap<WitnessId, usize>,
+    /// Witnesses set before execution (private inputs); they have no defining op.
+    inputs: hashbrown::HashSet<WitnessId>,
 }
 
 impl<F: Field> MulAddFusion<F> {
     /// Scans `ops` to build use-counts, definitions, and backwards-op tracking.
+    #[cfg_attr(not(test), allow(dead_code))]
     pub(super) fn new(ops: &[Op<F>]) -> Self {
+        Self::with_inputs(ops, &[])
+    }
+
+    /// Create a fusion pass that knows which witnesses are inputs set before execution.
+    pub(super) fn with_inputs(ops: &[Op<F>], inputs: &[WitnessId]) -> Self {
         let mut fusion = Self {
             use_counts: HashMap::new(),
             defs: HashMap::with_capacity(ops.len()),
             backwards_computed: HashMap::new(),
+            inputs: inputs.iter().copied().collect(),
         };
         fusion.scan_use_counts(ops);
         fusion.scan_defs(ops);
@@ -55,7 +64,7 @@ impl<F: Field> MulAddFusion<F> {
     }
 
     fn is_backwards(&self, idx: usize, out: &WitnessId) -> bool {
-        self.def_idx(out).is_some_and(|i| i < idx)
+        self.inputs.contains(out) || self.def_idx(out).is_some_and(|i| i < idx)
     }
 
     /// Inserts a def unless the witness is already a Const (connect aliasing).
